@@ -6,6 +6,7 @@ package main
 import (
 	"fmt"
 	"math"
+	"math/rand"
 	"sort"
 
 	"github.com/aclements/go-moremath/stats"
@@ -95,10 +96,11 @@ func mwOracleZ(x1, x2 []float64, alt int) float64 {
 // Argument layouts (property clause "leaves its arguments unmodified"): every slice argument is a
 // window of a larger backing array with guard cells (a sentinel NaN bit pattern) before and after it,
 // and the WHOLE backing array is compared bitwise after every call.  The layout rotates with the call:
-//   0  tight capacity (cap == len), x1 and x2 in separate regions
-//   1  generous capacity (cap(x1) >= len(x1)+len(x2)+guard, likewise x2): an append onto the argument
-//      writes into the caller's memory instead of allocating
-//   2  x2 lies directly behind x1 inside x1's capacity (the two arguments are neighbours in one array)
+//
+//	0  tight capacity (cap == len), x1 and x2 in separate regions
+//	1  generous capacity (cap(x1) >= len(x1)+len(x2)+guard, likewise x2): an append onto the argument
+//	   writes into the caller's memory instead of allocating
+//	2  x2 lies directly behind x1 inside x1's capacity (the two arguments are neighbours in one array)
 const mwSentinel = 0x7ff8dead0000beef
 const mwGuard = 5
 
@@ -202,4 +204,19 @@ func mwEmit(l *Line, r *mwRun) {
 	}
 	stats.MannWhitneyExactLimit, stats.MannWhitneyTiesExactLimit = oldE, oldT
 	l.B(pure)
+}
+
+// mwOnePair returns distinct integer values split into samples of sizes n1, n2 (n1+n2 >= 3) in which
+// exactly one value occurs twice: the smallest possible tie, at a random position of the order and
+// at random places of the two samples.
+func mwOnePair(rng *rand.Rand, n1, n2 int) ([]float64, []float64) {
+	n := n1 + n2
+	vals := make([]float64, n)
+	for i := range vals {
+		vals[i] = float64(i)
+	}
+	k := rng.Intn(n - 1)
+	vals[k+1] = vals[k]
+	rng.Shuffle(n, func(i, j int) { vals[i], vals[j] = vals[j], vals[i] })
+	return append([]float64{}, vals[:n1]...), append([]float64{}, vals[n1:]...)
 }
